@@ -185,6 +185,12 @@ def jobs(tier, seed):
                 if kind == 'DRR':
                     cfg['smax'] = 3200
                 js.append({'harness': 'rr', 'cfg': cfg, 'weight': 10 if kind != 'DRR' else 60})
+    # longer workloads, few timing variables: two bursts (effects that need several rounds to show)
+    for kind, t in (('RR', {0: 1, 1: 1}), ('WRR', {0: 1, 1: 2}), ('DRR', {0: 1, 1: 2})):
+        m = 8 if kind != 'DRR' else (6 if tier == 'quick' else 7)
+        cfg = {'kind': kind, 'rate': 8192 if kind == 'DRR' else 8, 'table': t, 'flows': [0, 1, 0, 1, 1, 0, 0, 1][:m], 'sorts': 'int',
+               'burst': [0, 1, 1, 1, 0, 1, 1, 1][:m], 'smax': 2 if kind != 'DRR' else 1600}
+        js.append({'harness': 'rr', 'cfg': cfg, 'weight': 60, 'opts': {'max_paths': 20000}})
     # declaration order is not the ascending order of the ids
     for kind, t in (('RR', {2: 1, 0: 1, 1: 1}), ('RR', {1: 1, 0: 1}), ('WRR', {1: 2, 0: 1}), ('DRR', {1: 1, 0: 2})):
         cfg = {'kind': kind, 'rate': 8192, 'table': t, 'table_order': list(t.keys()), 'sorts': 'int',
